@@ -10,7 +10,14 @@ use vice::domain::Domain;
 use iceoryx2::node::{NodeState, NodeView};
 use iceoryx2::prelude::*;
 
+static PHASE_FILE: std::sync::OnceLock<std::path::PathBuf> = std::sync::OnceLock::new();
+
 fn phase(name: &str) {
+    // atomic-write crash mode: leave the name of the current phase where the harness finds it
+    // (not in system-call crash mode: the extra calls would shift the crash indices)
+    if let Some(p) = PHASE_FILE.get() {
+        let _ = std::fs::write(p, name);
+    }
     let s = format!("VERIF_PHASE:{name}");
     unsafe { libc::write(-1, s.as_ptr() as *const libc::c_void, s.len()) };
 }
@@ -47,6 +54,9 @@ fn main() {
     let scenario = a[3].as_str();
     let sname: ServiceName = must!(a.get(4).filter(|s| !s.contains('.') && !s.starts_with('/')).map(|s| s.as_str()).unwrap_or("victim/service").try_into(), "service name");
     // VERIF_CHILD_ATOMIC_KILL=<n>: die at the n-th shared-memory atomic write (counted from BEGIN)
+    if std::env::var_os("VERIF_CHILD_ATOMIC_KILL").is_some() {
+        let _ = PHASE_FILE.set(std::path::Path::new(&a[1]).join(".vphase"));
+    }
     atomic_kill::install();
 
     let extra = a.get(4).cloned().unwrap_or_default();
